@@ -146,7 +146,7 @@ func cmdWorker(args []string) int {
 	maxRuns, _ := strconv.Atoi(args[5])
 	tier := args[6]
 	deadline := time.Unix(dl, 0)
-	ps := props.Profiles(prop)
+	ps := props.ProfilesFor(prop, tier)
 	if len(ps) == 0 {
 		fmt.Fprintln(os.Stderr, "no profiles for", prop)
 		return 2
@@ -200,7 +200,7 @@ type agg struct {
 
 func cmdCheck(prop, tier string) int {
 	start := time.Now()
-	ps := props.Profiles(prop)
+	ps := props.ProfilesFor(prop, tier)
 	if len(ps) == 0 {
 		fmt.Fprintln(os.Stderr, "unknown property / no profiles:", prop)
 		return 2
